@@ -309,6 +309,14 @@ def _pmap_worker(args):
     warnings.filterwarnings("ignore")
     part = Partial(seed, tier)
     part.rng_item = item
+    # forked workers inherit cubed's per-process context directory and name counters: give each worker its own directory,
+    # otherwise arrays of different workers collide in the default intermediate store
+    try:
+        import uuid
+        import cubed.core.plan as _cp
+        _cp.CONTEXT_ID = f"cubed-verif-{os.getpid()}-{uuid.uuid4()}"
+    except Exception:
+        pass
     try:
         func(part, item)
     except Exception:
